@@ -37,8 +37,10 @@ Theorem C07_recint_inv_mod_units : Inv_mod_stmt.                            Proo
 Print Assumptions C07_recint_inv_mod_units.
 Theorem C07_rmint_mga_ops_are_plain_residues : MGA_ops_stmt.                Proof. exact MGA_ops. Qed.
 Print Assumptions C07_rmint_mga_ops_are_plain_residues.
-Theorem C07_rmint_mga_inv_div_exp_partial : MGA_inv_div_exp_stmt.           Proof. exact MGA_inv_div_exp. Qed.
-Print Assumptions C07_rmint_mga_inv_div_exp_partial.
+Theorem C07_rmint_mga_inv_div_exp_word : MGA_inv_div_exp_stmt.              Proof. exact MGA_inv_div_exp. Qed.
+Print Assumptions C07_rmint_mga_inv_div_exp_word.
+Theorem C07_rmint_mga_exp_windowed_ruint_exponent : MGA_exp_ruint_stmt.    Proof. exact MGA_exp_ruint. Qed.
+Print Assumptions C07_rmint_mga_exp_windowed_ruint_exponent.
 Theorem C07_rmint_mga_construction_reduces : MGA_ctor_stmt.                 Proof. exact MGA_ctor. Qed.
 Print Assumptions C07_rmint_mga_construction_reduces.
 Theorem C07_rmint_mgi_ops_are_plain_residues : MGI_ops_stmt.                Proof. exact MGI_ops. Qed.
